@@ -660,6 +660,9 @@ func (v *Verifier) jump(st *State, b *ssa.BasicBlock) bool {
 	}
 	name := fmt.Sprintf("%s/loop%d", v.fnLabel(st), ord)
 	env := v.specEnv(st, specFr)
+	if specFr != fr {
+		env.fr2 = fr
+	}
 	if !back {
 		for i, inv := range spec.Invariants {
 			g := env.evalBool(inv.Expr)
@@ -717,6 +720,9 @@ func (v *Verifier) jump(st *State, b *ssa.BasicBlock) bool {
 		st.lastCut = len(st.pc)
 		ci.pcLen = len(st.pc)
 		env = v.specEnv(st, specFr)
+		if specFr != fr {
+			env.fr2 = fr
+		}
 		for _, inv := range spec.Invariants {
 			st.assume(env.evalBool(inv.Expr))
 		}
